@@ -102,6 +102,7 @@ emit(co(1)); emit(co(10))
 local c = coroutine.create(function() error({code = 7}) end)
 local ok, e = coroutine.resume(c); emit(ok, type(e), e.code, coroutine.status(c), coroutine.isyieldable())
 emit(select(2, coroutine.running()), package.loaded.string == string, type(require), type(package.path))
+emit(package.config, select(2, package.searchpath("no.such.mod", "./?.lua;/x/?/init.lua")), select(2, pcall(require, "no.such.mod")) ~= nil)
 collectgarbage(); emit(collectgarbage("count") > 0, collectgarbage("isrunning"))`,
 	`local mt = {__index = function(t, k) return k .. "?" end, __add = function(a, b) return 42 end, __tostring = function() return "OBJ" end}
 local o = setmetatable({}, mt)
@@ -138,6 +139,7 @@ var hostile = []string{
 	`package.loaded.string = nil; package.path = "hacked"; require = nil; load = nil; pcall = function() return true end; error = function() end; rawequal = nil; utf8 = nil; os = nil; runtime = nil`,
 	`local co = coroutine.create(function() while true do coroutine.yield() end end); for i = 1, 5 do coroutine.resume(co) end`,
 	`rawset(_G, "emit", nil); for k in pairs(_G) do _G[k] = nil end`,
+	`package.config = "\\\n:\n%\n#\n=\n"; package.searchpath("a.b", "x:%.lua"); pcall(require, "another.missing.module"); package.cpath = "nowhere"; package.searchers[2] = nil`,
 }
 
 type hostileRT struct {
